@@ -25,6 +25,8 @@ def run(chk):
     cases, meta = [], []
     for _ in range(ncore):
         kind, V = gen.convex_set(rng)
+        if rng.random() < 0.34:      # any size: exact rescaling by a power of two between 2^-34 (6e-11) and 2^10
+            V = V * 2.0 ** int(rng.integers(-34, 11)); kind += "*2^k"
         st, p = C.excname(coxeter.shapes.ConvexPolyhedron, V)
         if st != "ok":
             continue
